@@ -1362,7 +1362,17 @@ def extract_closure(src, spec, unit_rules):
             first = [i for i, r_ in enumerate(st) if want in re.sub(r"\s+", "", src.text(*r_))]
             if not first:
                 raise LostAnchor(f"statement mentioning `{rg['from_contains']}` of {spec['path']}")
-            body, is_block = [st[first[0]][0], st[-1][1]], False
+            last = len(st) - 1
+            if rg.get("to_contains"):
+                want2 = rg["to_contains"].replace(" ", "")
+                lasts = [i for i, r_ in enumerate(st) if i >= first[0] and want2 in re.sub(r"\s+", "", src.text(*r_))]
+                if not lasts:
+                    raise LostAnchor(f"statement mentioning `{rg['to_contains']}` of {spec['path']}")
+                last = lasts[0]
+            e = st[last][1]
+            if src.data[e:e + 1] == b";":
+                e += 1
+            body, is_block = [st[first[0]][0], e], False
         else:
             raise Unsupported(f"region kind {rg['kind']}")
         cl = {"inputs": [], "body": body, "body_is_block": is_block}
@@ -1465,6 +1475,7 @@ def extract_closure(src, spec, unit_rules):
     ret = spec.get("ret", "r")
     text = (
         f"pub fn {spec['name']}{spec.get('generics', '')}({spec['params']}) -> ({ret}: {spec['ret_ty']})" + contract + "\n{\n"
+        + (spec.get("param_let", "").strip() + "\n" if spec.get("param_let") else "")
         + (spec.get("body_start", "").strip() + "\n" if spec.get("body_start") else "")
         + inner + "\n}\n"
     )
